@@ -75,8 +75,12 @@ type Server struct {
 	cur               *Call
 	nrep, nonce       int
 	Problems          []string
-	big               []byte
 }
+
+var (
+	bigOnce sync.Once
+	bigBody []byte
+)
 
 const (
 	SlowDelay    = 500 * time.Millisecond
@@ -442,11 +446,9 @@ func (s *Server) certBody(kind, tag string) []byte {
 	case "junk":
 		return []byte("<html><body>no certificate here</body></html>\n")
 	case "big":
-		if s.big == nil {
-			// one CERTIFICATE block whose PEM text exceeds maxCertChainSize + maxCertChainSize/33
-			s.big = blk("CERTIFICATE", make([]byte, 5<<20))
-		}
-		return s.big
+		// one CERTIFICATE block whose PEM text exceeds maxCertChainSize + maxCertChainSize/33
+		bigOnce.Do(func() { bigBody = blk("CERTIFICATE", make([]byte, 5<<20)) })
+		return bigBody
 	}
 	return []byte("unknown certificate kind " + kind)
 }
